@@ -464,3 +464,50 @@ M.METHOD_HOOKS.append(_slist_mul)
 M.GETITEM_HOOKS.append(_slist_getitem)
 M.SETITEM_HOOKS.append(_slist_setitem)
 M.LEN_HOOKS.append(_slist_len)
+
+
+# ---------------------------------------------------------------------------
+# [f(x) for x in <symbolic sequence>]: a fresh sequence of the same length, defined pointwise
+
+
+def _map_comprehension_hook(ex, e, frame, it, gi):
+    import ast
+    from .execu import Frame, _WouldFork, PyRaise
+    if gi != 0 or len(e.generators) != 1 or e.generators[0].ifs:
+        return NotImplemented
+    g = e.generators[0]
+    src = getattr(it, "seq", None)
+    if src is None or not isinstance(g.target, ast.Name):
+        return NotImplemented
+    sty = src.ty
+    ety = sty.elem() if hasattr(sty, "elem") else sty.inner
+    if ety.kind not in ("str", "int", "num", "bool"):
+        return NotImplemented
+    e0 = fresh_term(ety.sort(), "elem")
+    f2 = Frame(frame.fi, {g.target.id: SV(e0, ety)}, frame, frame.module)
+    f2.self_cls = frame.self_cls
+    ex.nofork += 1
+    try:
+        v = ex.eval(e.elt, f2)
+    except (_WouldFork, PyRaise):
+        return NotImplemented
+    finally:
+        ex.nofork -= 1
+    if not is_sym(v):
+        try:
+            v = SV(term(v), ty_of_concrete(v))
+        except Exception:
+            return NotImplemented
+    rty = TSeq(v.ty)
+    r = fresh_term(rty.sort(), "mapped")
+    i = z3.Int("i!map")
+    n = z3.Length(src.t)
+    body = z3.substitute(v.t, (e0, sty.at(src.t, i)))
+    ex.assume(z3.Length(r) == n, "T-STD: a list comprehension has one element per input element")
+    ex.assume(z3.ForAll([i], z3.Implies(z3.And(i >= 0, i < n), rty.at(r, i) == body), patterns=[rty.at(r, i)] if False else []),
+              "T-STD: [f(x) for x in s][i] == f(s[i])")
+    ex.assumptions_used.add("list comprehension over a symbolic list as a pointwise-defined list (quantified definition)")
+    return SV(r, rty)
+
+
+M.COMPREHENSION_HOOKS.append(_map_comprehension_hook)
